@@ -77,10 +77,26 @@ def special(i):
         return "١٢"
     if i == 18:
         return 0.1
-    return -(2 ** 63) - 1
+    if i == 19:
+        return -(2 ** 63) - 1
+    if i == 20:
+        return {}
+    if i == 21:
+        return []
+    if i == 22:
+        return ""
+    if i == 23:
+        return [[]]
+    if i == 24:
+        return range(0)
+    if i == 25:
+        return {"a": {}}
+    if i == 26:
+        return [None]
+    return (1, "<b>")
 
 
-NSPECIAL = 19
+NSPECIAL = 27
 
 
 def only_liquid(t, data):
@@ -120,7 +136,7 @@ def _mk_filter(n):
         pre: not isinstance(x, str) or len(x) <= 3
         pre: not isinstance(y, str) or len(y) <= 3
         pre: not isinstance(z, str) or len(z) <= 2
-        pre: 1 <= k <= 3 and 0 <= slot <= 3 and 0 <= sp <= 19 and 0 <= mode <= 2
+        pre: 1 <= k <= 3 and 0 <= slot <= 3 and 0 <= sp <= 27 and 0 <= mode <= 2
         post: _
         """
         if excluded("c02_filter_" + n, locals()):
@@ -151,6 +167,55 @@ for _n in NAMES:
     globals()["c02_filter_" + _n] = _mk_filter(_n)
     CONDITIONS.append({"fn": "c02_filter_" + _n, "quick": 25 if _n in _QUICK_FILTERS else None, "thorough": 150 if _n not in _SLOW else 200,
                        "float": True})
+
+# ---- every registered filter x every special value ------------------------------------------------------------
+# The solver picks the filter, the arity and the mode (selectors, 720 paths); on each path the body runs, untraced,
+# every combination of the fixed pool of special values in the argument positions.
+_SUB = (0, 3, 5, 10, 11, 20, 21, 22)
+
+
+def _specials_sweep(n, k, m):
+    bad = []
+    if k == 1:
+        for a in range(NSPECIAL + 1):
+            if not only_liquid(T1[(m, n)], {"x": special(a)}):
+                bad.append((a,))
+    elif k == 2:
+        for a in range(NSPECIAL + 1):
+            for b in range(NSPECIAL + 1):
+                if not only_liquid(T2[(m, n)], {"x": special(a), "y": special(b)}):
+                    bad.append((a, b))
+    else:
+        for a in range(NSPECIAL + 1):
+            for b in _SUB:
+                for c in _SUB:
+                    if not only_liquid(T3[(m, n)], {"x": special(a), "y": special(b), "z": special(c)}):
+                        bad.append((a, b, c))
+    return bad
+
+
+def _mk_specials(mode):
+    def f(fi: int, k: int) -> bool:
+        """
+        pre: 0 <= fi <= 79 and 1 <= k <= 3
+        post: _
+        """
+        if excluded("c02_filters_specials_m%d" % mode, locals()):
+            return True
+        fi = cint(fi, 0, len(NAMES) - 1)
+        k = cint(k, 1, 3)
+        return finish(untraced(lambda: not _specials_sweep(NAMES[fi], k, _mode(mode))))
+    f.__name__ = f.__qualname__ = "c02_filters_specials_m%d" % mode
+    return f
+
+
+DETAIL = {}
+for _i in range(3):
+    globals()["c02_filters_specials_m%d" % _i] = _mk_specials(_i)
+    DETAIL["c02_filters_specials_m%d" % _i] = (lambda mode: lambda fi, k: {
+        "filter": NAMES[fi], "arity": k, "mode": str(_mode(mode)),
+        "escaping": [tuple(repr(special(j)) for j in t) for t in _specials_sweep(NAMES[fi], k, _mode(mode))[:4]]})(_i)
+    CONDITIONS.append({"fn": "c02_filters_specials_m%d" % _i, "quick": 60, "thorough": 120, "sel_only": True})
 
 # ---- tag argument positions ------------------------------------------------------------------------------------
 TAGS = {
@@ -184,7 +249,7 @@ def _mk_tag(kind):
         """
         pre: not isinstance(x, str) or len(x) <= 3
         pre: not isinstance(y, str) or len(y) <= 3
-        pre: 0 <= n <= 3 and 0 <= slot <= 2 and 0 <= sp <= 19 and 0 <= mode <= 2
+        pre: 0 <= n <= 3 and 0 <= slot <= 2 and 0 <= sp <= 27 and 0 <= mode <= 2
         post: _
         """
         if excluded("c02_tag_" + kind, locals()):
@@ -210,7 +275,7 @@ from liquid.limits import to_int  # noqa: E402
 def c02_kernel_args(x: V, k: int, slot: bool, sp: int) -> bool:
     """
     pre: not isinstance(x, str) or len(x) <= 4
-    pre: 0 <= k <= 3 and 0 <= sp <= 19
+    pre: 0 <= k <= 3 and 0 <= sp <= 27
     post: _
     """
     # the argument helpers used by every numeric filter: return, or raise a LiquidError (to_int: ValueError/TypeError
@@ -312,4 +377,6 @@ def selftest():
         fails.append("plus with junk should only raise LiquidError")
     if only_liquid(ENV.from_string("{{ x }}"), {"x": 1}) is not True:
         fails.append("baseline")
+    if len(NAMES) != 80:
+        fails.append("c02_filters_specials is bounded to 80 registered filters, found %d" % len(NAMES))
     return fails
